@@ -46,7 +46,13 @@ func (w *writer) write(s string) {
 }
 
 // commentText draws an ordinary comment (never an annotation/macro).
+var specialComments = []string{"#FASTLY recv", "#FASTLY deliver", "#FASTLY fetch", "# falco-ignore-next-line", "// falco-ignore", "# falco-ignore-start", "# falco-ignore-end",
+	"// @scope: recv, deliver", "# @suite: checkout", "/* falco-ignore-next-line */"}
+
 func (g *G) commentText(serial int, allowLine bool) string {
+	if g.cfg.SpecialComments && allowLine && g.chance(8, "special-comment") {
+		return pickOne(g, specialComments, "special")
+	}
 	body := pickOne(g, commentWords, "cword")
 	body = fmt.Sprintf("c%d %s", serial, body)
 	form := g.intn(0, 5, "cform")
